@@ -7,5 +7,6 @@ mkdir -p .build evidence replays
 export CARGO_NET_OFFLINE=true
 python3 translator/extract.py lean/TgModel/Generated/Tables.lean .build/tables.json
 (cd harness && cargo build --release --features verif --offline 2>&1 | tail -3)
+(cd /repo && CARGO_TARGET_DIR=/verif/.build/cargo-repo cargo build --release -p lsp --offline 2>&1 | tail -1)
 (cd lean && lake build TgModel tgdrive 2>&1 | tail -3)
 echo "setup done"
